@@ -365,8 +365,104 @@ def parse_sweep(tier, seed):
     return None, n
 
 
+# ------------------------------------------------------------------ regular expressions: no catastrophic backtracking
+def regex_audit(repo, tier):
+    """Every compiled pattern of the package (the FRegex table, module-level patterns and literal patterns compiled
+    inside functions) is matched against pumped inputs: a repeated fragment between a statement-like head and a tail
+    that makes the match fail.  A linear or polynomial matcher answers each in microseconds; a pattern with nested
+    ambiguous repeats needs time exponential in the number of repetitions.  Patterns whose syntax tree has no
+    unbounded repeat inside another unbounded repeat (star height < 2) cannot backtrack exponentially and are only
+    counted."""
+    import importlib
+    import signal
+    import time as _t
+    import re._parser as sp
+    from re._constants import MAXREPEAT
+
+    def star_height(items):
+        m = 0
+        for op, av in items:
+            name = str(op)
+            if name in ("MAX_REPEAT", "MIN_REPEAT", "POSSESSIVE_REPEAT"):
+                lo, hi, sub = av
+                m = max(m, star_height(sub) + (1 if hi == MAXREPEAT else 0))
+            elif name == "SUBPATTERN":
+                m = max(m, star_height(av[3]))
+            elif name == "BRANCH":
+                for b in av[1]:
+                    m = max(m, star_height(b))
+            elif name in ("ASSERT", "ASSERT_NOT"):
+                m = max(m, star_height(av[1]))
+            elif name == "GROUPREF_EXISTS":
+                m = max(m, star_height(av[1]), star_height(av[2]) if av[2] else 0)
+        return m
+
+    pats = {}
+    for modname in ("fortls.regex_patterns", "fortls.helper_functions", "fortls.parsers.internal.parser", "fortls.langserver",
+                    "fortls.jsonrpc", "fortls.parsers.internal.utilities", "fortls.interface"):
+        mod = importlib.import_module(modname)
+        for holder in [mod] + [v for v in vars(mod).values() if isinstance(v, type) and v.__module__ == modname]:
+            for n, v in vars(holder).items():
+                if isinstance(v, re.Pattern):
+                    pats[f"{getattr(holder, '__name__', modname)}.{n}"] = v
+    # literal patterns compiled inside functions
+    for q, fi in repo.all_functions():
+        if not q.startswith("fortls."):
+            continue
+        for n in ast.walk(fi.node):
+            if isinstance(n, ast.Call) and ast.unparse(n.func) in ("re.compile", "re.match", "re.search", "re.sub", "re.split", "re.subn") \
+                    and n.args and isinstance(n.args[0], ast.Constant) and isinstance(n.args[0].value, str):
+                flags = re.I if any("re.I" in ast.unparse(a) or ast.unparse(a) == "I" for a in list(n.args[1:]) + [k.value for k in n.keywords]) else 0
+                try:
+                    pats[f"{fi.short}:{n.lineno}"] = re.compile(n.args[0].value, flags)
+                except re.error:
+                    pass
+    candidates = {k: v for k, v in pats.items() if star_height(sp.parse(v.pattern, v.flags)) >= 2}
+    heads = ["", "(", "x(", "call x(", "subroutine s(", "function f(", "type(", "real(", "integer, dimension(", "x = ", "#if ", "use m, only: "]
+    pumps = ["a", "ab_c", "a ", "a,", "a, ", "1", " ", "a=", "a%", "(", "a(1)", "'", "a&", "1 +"]
+    tails = ["", "!", "*", "(", "$", "=", "\"", "?"]
+    reps = (22, 26) if tier == "thorough" else (22,)
+
+    class Slow(BaseException):
+        pass
+
+    def on_alarm(sig, frm):
+        raise Slow()
+    old = signal.signal(signal.SIGALRM, on_alarm)
+    n_calls = 0
+    try:
+        for name, pat in candidates.items():
+            for head in heads:
+                for pump in pumps:
+                    for tail in tails:
+                        for n in reps:
+                            text = head + pump * n + tail
+                            for fn in (pat.match, pat.search):
+                                n_calls += 1
+                                t0 = _t.time()
+                                signal.setitimer(signal.ITIMER_REAL, 1.0)
+                                try:
+                                    fn(text)
+                                except Slow:
+                                    return {"pattern": name, "regex": pat.pattern, "input": text, "call": fn.__name__,
+                                            "seconds": f"> {round(_t.time() - t0, 1)} (interrupted)"}, len(pats), len(candidates), n_calls
+                                finally:
+                                    signal.setitimer(signal.ITIMER_REAL, 0)
+    finally:
+        signal.signal(signal.SIGALRM, old)
+    return None, len(pats), len(candidates), n_calls
+
+
 def extra(repo, reg, tier, seed):
     items = safety_items(repo) + structure_items(repo)
+    w, n_pat, n_cand, n_calls = regex_audit(repo, tier)
+    it = Item("C03/regex/no_catastrophic_backtracking", "refuted" if w else "bounded-ok", "native-run(bounded)", 0.0, mode="bounded",
+              witness=w, confirmed=True if w else None, func="fortls.regex_patterns.FortranRegularExpressions",
+              detail=f"{n_pat} compiled patterns of the package; {n_pat - n_cand} have no unbounded repeat nested in another "
+                     f"(cannot backtrack exponentially); the other {n_cand} answered {n_calls} pumped inputs (head + fragment x "
+                     "22..26 + failing tail) within 1 s each")
+    it.count = n_calls
+    items.append(it)
     w, n = parse_sweep(tier, seed)
     items.append(Item("C03/session/native_parse_sweep", "refuted" if w else "bounded-ok", "native-run(bounded)", 0.0,
                       mode="bounded", witness=w, confirmed=True if w else None, func=f"{PARSER}.FortranFile.parse",
